@@ -2,9 +2,13 @@
 from . import _hub
 
 CONFIG = dict(
-    modules=["SigModel.Props.C19", "SigModel.Props.C07"],
-    theorems=["SigModel.Hub.reachable_inv", "SigModel.Hub.C19_only_internal", "SigModel.Hub.C19_own_backend_only", "SigModel.Hub.C19_exists_through_parent", "SigModel.Hub.C19_table_sound", "SigModel.Hub.C19_member_not_listener", "SigModel.Hub.C19_removed_is_gone", "SigModel.Hub.C19_facts", "SigModel.Hub.C19_gone_iff", "SigModel.Hub.C19_removed_is_reported", "SigModel.Hub.C05_routing", "SigModel.Hub.C07_no_residue"],
-    generated=["Hub"],
+    modules=["SigModel.Props.C19", "SigModel.Props.C07", "SigModel.Props.C01"],
+    theorems=["SigModel.Hub.reachable_inv", "SigModel.Hub.C19_only_internal", "SigModel.Hub.C19_own_backend_only", "SigModel.Hub.C19_exists_through_parent", "SigModel.Hub.C19_table_sound", "SigModel.Hub.C19_member_not_listener", "SigModel.Hub.C19_removed_is_gone", "SigModel.Hub.C19_facts", "SigModel.Hub.C19_gone_iff", "SigModel.Hub.C19_removed_is_reported", "SigModel.Hub.C05_routing", "SigModel.Hub.C07_no_residue",
+              # "an authenticated internal client": the hub model takes the hello as accepted; that an internal hello is
+              # accepted only with HMAC(secret, random) under a non-empty configured secret is C01's theorem and C01's
+              # regenerated facts of processHelloInternal -- obligations of this check too
+              "SigModel.Auth.C01_session_needs_credentials", "SigModel.Auth.C01_facts_as_modelled"],
+    generated=["Hub", "Auth"],
     harness=_hub.HARNESS,
     stats=_hub.stats,
     canon=_hub.canon,
@@ -15,7 +19,7 @@ CONFIG = dict(
 )
 
 MANIFEST = dict(
-    text="Lean 4 theorems over the hub model: add/remove/in-call requests of sessions that are not internal clients change nothing; a virtual session is created only in the room of that id on the internal client's own backend; in every reachable state a virtual session has no connection of its own and its owner exists, is an internal session of the same backend and lists it (so none can outlive its internal client), the virtual-session table is sound, a virtual session in a room is a member but not a bus listener and messages addressed to it are written to the internal client with the recipient rewritten (C05_routing); a removed virtual session is gone, with no residue (C07_no_residue), and it is among the removals the backend has to be told about (C19_gone_iff, C19_removed_is_reported). Differential hub run with add/remove from internal and ordinary clients, duplicate ids with failing adds, messages to virtual sessions from both backends, end of the parent by bye/expiry/room deletion (scripted openings + random walk); the fake backend's 'remove' requests of every step are compared with the virtual sessions that went away, and the judge flags a removal the backend was not told about or a virtual session that outlives its removal.",
+    text="Lean 4 theorems over the hub model: add/remove/in-call requests of sessions that are not internal clients change nothing; a virtual session is created only in the room of that id on the internal client's own backend; in every reachable state a virtual session has no connection of its own and its owner exists, is an internal session of the same backend and lists it (so none can outlive its internal client), the virtual-session table is sound, a virtual session in a room is a member but not a bus listener and messages addressed to it are written to the internal client with the recipient rewritten (C05_routing); a removed virtual session is gone, with no residue (C07_no_residue), and it is among the removals the backend has to be told about (C19_gone_iff, C19_removed_is_reported). Differential hub run with add/remove from internal and ordinary clients, duplicate ids with failing adds, messages to virtual sessions from both backends, end of the parent by bye/expiry/room deletion (scripted openings + random walk); the fake backend's 'remove' requests of every step are compared with the virtual sessions that went away, and the judge flags a removal the backend was not told about or a virtual session that outlives its removal. That the internal client is authenticated (token = HMAC-SHA256(secret, random) under a non-empty configured secret, >= 32 bytes of random) is C01_session_needs_credentials over the hello model with the regenerated facts of processHelloInternal (C01_facts_as_modelled), both obligations of this check as well.",
     note='Synchronous routing layer: single hub, loopback bus, quiescence between ops; no gRPC peers, MCU or federation. Trusted: Lean kernel, extractor, harness (real websockets, fake Nextcloud backend) and comparison. Backend add requests are parameters of the ops (success/failure); remove requests are observed (room and session). Flags updates (updatesession) are not modelled.',
     technique="Lean 4 proof (routing refinement over the hub model) + differential correspondence",
 )
